@@ -113,18 +113,28 @@ OnIter(ln, s) ==
            <<"NOTE:ModelDrift", (ln.exc = "" /\ Has(ln, "model")) => SetOfPairs(ln.model.exact) \subseteq ex>> >>,
         [s EXCEPT !.lvl = lvl, !.prevEx = ex, !.n = s.n + 1, !.ok = s.ok /\ ln.exc = ""] >>
 
-OnEnd(ln, s) ==
+\* TLC evaluates LET definitions and operator arguments lazily and may evaluate them again at every
+\* use; binding through a singleton set gives the body a computed value.
+ForceLet(e, Body(_)) == CHOOSE res \in {Body(v) : v \in {e}} : TRUE
+
+\* what TLC recomputes from the integer data of the network: 1-norm: the table J of all products over
+\* all labels (value and marginals are sums over it); 2-norm: the amplitudes A over the outer labels
+Recomputed(ln, s) ==
+  LET r == s.rec
+      exactnet == HasNet(r) /\ ln.exc = ""
+      labs == IF exactnet /\ r.norm = 1 THEN AllLabels(r.net) ELSE <<>>
+  IN  [labs |-> labs,
+       J |-> IF exactnet /\ r.norm = 1 THEN JointOf(r.net, labs) ELSE <<>>,
+       A |-> IF exactnet /\ r.norm = 2 THEN AmpOf(r.net, r.out) ELSE <<>>]
+
+OnEndBody(ln, s, c) ==
   LET ex == SetOfPairs(ln.exact)
       r == s.rec
       exactnet == HasNet(r)
       net == IF exactnet THEN r.net ELSE <<>>
       name == IF exactnet THEN r.name ELSE <<>>
       out == IF exactnet THEN r.out ELSE <<>>
-      \* 1-norm: the table of all products, once; the value and every marginal are sums over it
-      labs == IF exactnet /\ r.norm = 1 THEN AllLabels(net) ELSE <<>>
-      J == IF exactnet /\ r.norm = 1 /\ ln.exc = "" THEN JointOf(net, labs) ELSE <<>>
-      A == IF exactnet /\ r.norm = 2 /\ ln.exc = "" THEN AmpOf(net, out) ELSE <<>>
-      z == IF exactnet THEN (IF r.norm = 1 THEN GSum(J) ELSE <<Norm2OfAmp(A), 0>>) ELSE GZero
+      z == IF exactnet /\ ln.exc = "" THEN (IF r.norm = 1 THEN GSum(c.J) ELSE <<Norm2OfAmp(c.A), 0>>) ELSE GZero
   IN << << <<"Returns", ln.exc = "">>,
            <<"Converges", ln.exc = "" => ln.converged>>,
            <<"ExactAtFixpoint", ln.exc = "" /\ ln.converged => ex = s.G.msgs>>,
@@ -135,10 +145,11 @@ OnEnd(ln, s) ==
            <<"IterBound", ln.exc = "" /\ ~r.opts.damped /\ Has(ln, "iterations") =>
                              ln.iterations <= IterBound(s.G, 0)>>,
            <<"ValueExact", ln.exc = "" => ValueIs(ln, z)>>,
-           <<"IndexMarginalExact", ln.exc = "" => IMargOK(ln, net, r.norm, out, J, labs, A)>>,
+           <<"IndexMarginalExact", ln.exc = "" => IMargOK(ln, net, r.norm, out, c.J, c.labs, c.A)>>,
            <<"TensorMarginalExact", ln.exc = "" => (Has(ln, "dqtmarg") => ln.dqtmarg = 0)>>,
            <<"MessagesExact", ln.exc = "" => FMsgOK(ln, net, name, s.G.E)>> >>,
-        [s EXCEPT !.prevEx = ex, !.J = J, !.labs = labs] >>
+        [s EXCEPT !.prevEx = ex, !.J = c.J, !.labs = c.labs] >>
+OnEnd(ln, s) == ForceLet(Recomputed(ln, s), LAMBDA c : OnEndBody(ln, s, c))
 
 \* one tensor marginal read from the converged messages (records following the end record)
 OnTMarg(ln, s) ==
@@ -183,12 +194,10 @@ OnSample(ln) ==
         <<"SampleProbExact", dom /\ ln.exc = "" =>
               /\ ~ln.omega.off
               /\ IF ln.norm = 1
-                 THEN LET w == MargOf(ln.net, labs)
-                          tot == GSum(w) IN
+                 THEN \E w \in {MargOf(ln.net, labs)} : \E tot \in {GSum(w)} :
                       /\ tot[1] # 0 /\ tot[2] = 0 /\ w[pos][2] = 0
                       /\ <<ln.omega.p[1], ln.omega.p[2]>> = RedRat(w[pos][1], tot[1])
-                 ELSE LET a == AmpOf(ln.net, labs)
-                          tot == SumI(LAMBDA k : GAbs2(a[k]), 1, Len(a)) IN
+                 ELSE \E a \in {AmpOf(ln.net, labs)} : \E tot \in {Norm2OfAmp(a)} :
                       tot # 0 /\ <<ln.omega.p[1], ln.omega.p[2]>> = RedRat(GAbs2(a[pos]), tot)>> >>,
      NoState >>
 
@@ -213,9 +222,9 @@ Step(ln, s) ==
 
 TInit == l = 1 /\ fails = <<>> /\ st = NoState
 TNext == /\ l <= NLines
-         /\ LET r == Step(TraceLog[l], st) IN
-            /\ fails' = AddFails(fails, l, r[1])
-            /\ st' = r[2]
+         /\ \E r \in {Step(TraceLog[l], st)} :
+               /\ fails' = AddFails(fails, l, r[1])
+               /\ st' = r[2]
          /\ l' = l + 1
 TSpec == TInit /\ [][TNext]_tvars
 Done == l = NLines + 1 => WriteVerdict(l - 1, fails)
